@@ -182,4 +182,493 @@ theorem fa_pfth_of_seg {src c : List Char} {m : Srcmap} (hw : C05.WFMap m)
       have hmono := C05.translate_mono m hw (fa_seg_mono hs) y.1 q (by omega) _ _ hty hb
       exact hbrk.mem_cut hw' (by omega) (by omega)
 
+/-! ## (ii) the table and the content of `get_lines` -/
+
+open MdIt.Lines (Shows mapOf viewPiece joinLines calcRightWs usizeAsI32 dropB)
+
+/-- consecutive lines are strictly separated, and every line but the last ends in front of a line
+    break of the source -/
+def fa_Chain (src : List Char) : List LineOffset → Prop
+  | [] => True
+  | [_] => True
+  | a :: b :: r => a.lineEnd < b.lineStart ∧ BrkAt src a.lineEnd ∧ fa_Chain src (b :: r)
+
+theorem fa_viewPiece_novirt {indent : Nat} {v : List Char × List Char × Int}
+    (h : (calcRightWs v.1 (v.2.2 - usizeAsI32 indent)).1 = 0) :
+    viewPiece indent v = dropB v.1 (calcRightWs v.1 (v.2.2 - usizeAsI32 indent)).2 ++ v.2.1 := by
+  simp [viewPiece, h]
+
+theorem fa_mapOf_cons_novirt {indent p : Nat} {o : LineOffset} {v : List Char × List Char × Int}
+    {r : List (LineOffset × (List Char × List Char × Int))}
+    (h : (calcRightWs v.1 (v.2.2 - usizeAsI32 indent)).1 = 0) :
+    mapOf indent p ((o, v) :: r)
+      = (p, o.lineStart + (calcRightWs v.1 (v.2.2 - usizeAsI32 indent)).2) ::
+          mapOf indent (p + byteLen (viewPiece indent v) + 1) r := by
+  simp [mapOf, h, C05I.linesLen_eq]
+
+/-- what one line contributes when no tab is split: a line-feed-free copy of the source bytes from
+    the table's offset to the end of the line -/
+theorem fa_piece {src : List Char} {o : LineOffset} {v : List Char × List Char × Int} {indent : Nat}
+    (hs : Shows src o v) (h0 : (calcRightWs v.1 (v.2.2 - usizeAsI32 indent)).1 = 0)
+    (hn1 : '\n' ∉ v.1) (hn2 : '\n' ∉ v.2.1) :
+    Cut src (o.lineStart + (calcRightWs v.1 (v.2.2 - usizeAsI32 indent)).2)
+        (o.lineStart + (calcRightWs v.1 (v.2.2 - usizeAsI32 indent)).2 + byteLen (viewPiece indent v))
+        (viewPiece indent v) ∧
+      o.lineStart + (calcRightWs v.1 (v.2.2 - usizeAsI32 indent)).2 + byteLen (viewPiece indent v)
+        = o.lineEnd ∧
+      '\n' ∉ viewPiece indent v := by
+  have h1 := Lines.slice_from_view hs.1 hs.2.1 (v.2.2 - usizeAsI32 indent)
+  rw [← fa_viewPiece_novirt h0] at h1
+  have h2 := (cut_iff_lines _ _ _ _).mp h1
+  have h3 : o.lineStart + (calcRightWs v.1 (v.2.2 - usizeAsI32 indent)).2 + byteLen (viewPiece indent v)
+      = o.lineEnd := by
+    obtain ⟨_, _, _, _, h⟩ := h2
+    exact h
+  refine ⟨by rw [h3]; exact h2, h3, ?_⟩
+  rw [fa_viewPiece_novirt h0]
+  intro hm
+  rcases List.mem_append.mp hm with hm | hm
+  · exact hn1 ((Lines.dropB_suffix _ _).subset hm)
+  · exact hn2 hm
+
+/-- **(ii)**: every entry of the table of `get_lines` is `fa_Seg` when no tab is split -/
+theorem fa_mapOf_seg (src : List Char) (indent : Nat) :
+    ∀ (ovs : List (LineOffset × (List Char × List Char × Int))) (pre : List Char),
+      (∀ ov ∈ ovs, Shows src ov.1 ov.2 ∧ '\n' ∉ ov.2.1 ∧ '\n' ∉ ov.2.2.1 ∧
+        (calcRightWs ov.2.1 (ov.2.2.2 - usizeAsI32 indent)).1 = 0) →
+      fa_Chain src (ovs.map (·.1)) →
+      SegAll (fa_Seg src (pre ++ joinLines false (ovs.map fun ov => viewPiece indent ov.2)))
+        (mapOf indent (byteLen pre) ovs) := by
+  intro ovs
+  induction ovs with
+  | nil => intro pre _ _; simp [mapOf, SegAll]
+  | cons ov rest ih =>
+    intro pre hs hc
+    obtain ⟨o, v⟩ := ov
+    obtain ⟨hsh, hn1, hn2, h0⟩ := hs (o, v) (by simp)
+    simp only at hsh hn1 hn2 h0
+    obtain ⟨hcut, hend, hnt⟩ := fa_piece hsh h0 hn1 hn2
+    rw [fa_mapOf_cons_novirt h0]
+    cases rest with
+    | nil =>
+      simp only [mapOf, SegAll, List.head?_nil, and_true, List.map_cons, List.map_nil, joinLines,
+        Bool.false_eq_true, if_false]
+      exact ⟨pre, viewPiece indent v, [], by simp, rfl, hnt, hcut, rfl⟩
+    | cons ov2 rest' =>
+      obtain ⟨o2, v2⟩ := ov2
+      obtain ⟨hc1, hc2, hc3⟩ := hc
+      simp only at hc1 hc2
+      have ih' := ih (pre ++ viewPiece indent v ++ ['\n'])
+        (fun ov h => hs ov (List.mem_cons_of_mem _ h)) hc3
+      have hcontent : pre ++ joinLines false (((o, v) :: (o2, v2) :: rest').map fun ov => viewPiece indent ov.2)
+          = (pre ++ viewPiece indent v ++ ['\n']) ++
+            joinLines false (((o2, v2) :: rest').map fun ov => viewPiece indent ov.2) := by
+        simp [joinLines, List.append_assoc]
+      have hpos : byteLen (pre ++ viewPiece indent v ++ ['\n'])
+          = byteLen pre + byteLen (viewPiece indent v) + 1 := by
+        simp only [C05.byteLen_append, byteLen, show '\n'.utf8Size = 1 by decide]
+      rw [hcontent]
+      rw [hpos] at ih'
+      refine ⟨?_, ih'⟩
+      obtain ⟨_, _, _, h02⟩ := hs (o2, v2) (by simp)
+      simp only at h02
+      rw [fa_mapOf_cons_novirt h02]
+      simp only [List.head?_cons]
+      refine ⟨pre, viewPiece indent v,
+        '\n' :: joinLines false (((o2, v2) :: rest').map fun ov => viewPiece indent ov.2),
+        by simp [List.append_assoc], rfl, hnt, hcut, _, rfl, rfl, ?_, ?_⟩
+      · simp only; omega
+      · simp only; rw [hend]; exact hc2
+
+/-! ## from the line table -/
+
+theorem fa_ovs_of_tableOk {src : List Char} {offs : List LineOffset}
+    (hT : ∀ (k : Nat) (o : LineOffset), offs[k]? = some o → Block.LineOk src o) :
+    ∀ (n b : Nat), b + n ≤ offs.length →
+      ∃ ovs : List (LineOffset × (List Char × List Char × Int)), ovs.length = n ∧
+        ∀ j (h : j < ovs.length), offs[b + j]? = some ovs[j].1 ∧ Shows src ovs[j].1 ovs[j].2 ∧
+          '\n' ∉ ovs[j].2.1 ∧ '\n' ∉ ovs[j].2.2.1 := by
+  intro n
+  induction n with
+  | zero => intro b _; exact ⟨[], rfl, fun j h => by simp at h⟩
+  | succ n ih =>
+    intro b hb
+    have hk : b < offs.length := by omega
+    obtain ⟨v, hv, hn1, hn2⟩ := Block.shows_of_lineOk (hT b offs[b] (List.getElem?_eq_getElem hk))
+    obtain ⟨ovs, hvl, hvs⟩ := ih (b + 1) (by omega)
+    refine ⟨(offs[b], v) :: ovs, by simp [hvl], ?_⟩
+    intro j hj
+    cases j with
+    | zero => exact ⟨by simp, hv, hn1, hn2⟩
+    | succ j =>
+      obtain ⟨ho, hs⟩ := hvs j (by simp at hj; omega)
+      exact ⟨by rw [show b + (j + 1) = b + 1 + j by omega, ho]; simp, by simpa using hs⟩
+
+theorem fa_chain_of {src : List Char} : ∀ (l : List LineOffset),
+    (∀ j a a', l[j]? = some a → l[j + 1]? = some a' → a.lineEnd < a'.lineStart ∧ BrkAt src a.lineEnd) →
+    fa_Chain src l
+  | [], _ => trivial
+  | [_], _ => trivial
+  | a :: a' :: r, h =>
+    ⟨(h 0 a a' rfl rfl).1, (h 0 a a' rfl rfl).2,
+      fa_chain_of (a' :: r) (fun j x y hx hy => h (j + 1) x y (by simpa using hx) (by simpa using hy))⟩
+
+/-- a `fa_Seg` table that starts at key 0 is well formed -/
+theorem fa_seg_wf {src c : List Char} {m : Srcmap} (hs : SegAll (fa_Seg src c) m)
+    (h0 : ∃ v rest, m = (0, v) :: rest) : C05.WFMap m := by
+  refine ⟨h0, C05I.pairwise_of_segAll ?_ m hs⟩
+  intro x y h
+  obtain ⟨_, _, _, _, _, _, _, _, _, hk, _, _⟩ := h
+  omega
+
+/-- **`get_lines` is faithful** in a tab-free source: on a table whose entries cut line-feed-free
+    lines out of the source (`LineOk`), strictly separated (`SortedS`), each ending in front of a
+    line break or at the end of the source (`TermOk`), the content `get_lines(b, e, indent, false)`
+    returns is, stretch by stretch, a copy of the source bytes its table names -/
+theorem fa_getLines_pfth {src : List Char} {offs : List LineOffset}
+    (hT : ∀ (k : Nat) (o : LineOffset), offs[k]? = some o → Block.LineOk src o)
+    (hord : Block.SortedS offs) (hterm : TermOk src offs) (htab : '\t' ∉ src)
+    {b e indent : Nat} {c : List Char} {m : Srcmap} (hbe : b < e)
+    (h : Lines.getLines src offs b e indent false = .ok (c, m)) : PFth src c m := by
+  have hlen : e ≤ offs.length := by
+    unfold Lines.getLines at h
+    rw [if_neg (by omega)] at h
+    exact Lines.getLinesGo_ok_len h hbe
+  obtain ⟨ovs, hvl, hvs⟩ := fa_ovs_of_tableOk hT (e - b) b (by omega)
+  obtain ⟨content, hget, hcontent, _⟩ :=
+    Lines.get_lines_faithful src offs b indent false ovs (fun j hj => ⟨(hvs j hj).1, (hvs j hj).2.1⟩)
+  rw [hvl, show b + (e - b) = e by omega, h] at hget
+  simp only [Except.ok.injEq, Prod.mk.injEq] at hget
+  obtain ⟨rfl, rfl⟩ := hget
+  have hseg := fa_mapOf_seg src indent ovs [] (by
+    intro ov hov
+    obtain ⟨j, hj, rfl⟩ := List.getElem_of_mem hov
+    obtain ⟨_, hs, hn1, hn2⟩ := hvs j hj
+    refine ⟨hs, hn1, hn2, ?_⟩
+    apply C05I.calcRightWs_fst_zero
+    intro ht
+    apply htab
+    obtain ⟨p, q, hsrc, _, _⟩ := Lines.slice_eq_ok_iff.mp hs.1
+    rw [hsrc]; simp [ht]) (by
+    apply fa_chain_of
+    intro j a a' ha ha'
+    simp only [List.getElem?_map, Option.map_eq_some_iff] at ha ha'
+    obtain ⟨x, hx, rfl⟩ := ha
+    obtain ⟨y, hy, rfl⟩ := ha'
+    obtain ⟨hj, rfl⟩ := List.getElem?_eq_some_iff.mp hx
+    obtain ⟨hj', rfl⟩ := List.getElem?_eq_some_iff.mp hy
+    have h1 := hord (b + j) (b + (j + 1)) _ _ (by omega) (hvs j hj).1 (hvs (j + 1) hj').1
+    refine ⟨h1, ?_⟩
+    rcases hterm _ _ (hvs j hj).1 with h2 | h2
+    · exfalso
+      have := (hT _ _ (hvs (j + 1) hj').1).bounds
+      rw [C05I.linesLen_eq] at this
+      omega
+    · exact h2)
+  simp only [List.nil_append, byteLen] at hseg
+  rw [← hcontent] at hseg
+  refine fa_pfth_of_seg (fa_seg_wf hseg ?_) hseg
+  cases ovs with
+  | nil => simp at hvl; omega
+  | cons ov r => exact ⟨_, _, rfl⟩
+
+/-! ## the one-entry table of an ATX heading -/
+
+/-- a line-feed-free content that is `src[x .. x + |content|]`, with the table `[(0, x)]` -/
+theorem fa_single_pfth {src content : List Char} {x : Nat}
+    (hcut : Cut src x (x + byteLen content) content) (hn : '\n' ∉ content) :
+    PFth src content [(0, x)] := by
+  have hs : SegAll (fa_Seg src content) [(0, x)] :=
+    ⟨⟨[], content, [], by simp, rfl, hn, hcut, rfl⟩, trivial⟩
+  exact fa_pfth_of_seg (C05I.single_table content x).1 hs
+
+/-- the text of a line, sliced: a line-feed-free copy of the source -/
+theorem fa_heading_cut {src : List Char} {o : LineOffset} (hl : Block.LineOk src o)
+    {line content : List Char} {textPos textMax : Nat}
+    (hline : Lines.slice src o.firstNonspace o.lineEnd = .ok line)
+    (hcontent : Lines.slice line textPos textMax = .ok content) :
+    Cut src (o.firstNonspace + textPos) (o.firstNonspace + textPos + byteLen content) content ∧
+      '\n' ∉ content := by
+  have h1 := (cut_iff_lines _ _ _ _).mp hline
+  have h2 := (cut_iff_lines _ _ _ _).mp hcontent
+  have h1' : Cut src o.firstNonspace (o.firstNonspace + byteLen line) line := by
+    have hh := h1
+    obtain ⟨_, _, _, _, h⟩ := hh
+    rw [h]; exact h1
+  have h3 := fa_cut_sub h1' h2
+  have h4 : textPos + byteLen content = textMax := by
+    have hh := h2
+    obtain ⟨_, _, _, _, h⟩ := hh
+    exact h
+  refine ⟨by rw [Nat.add_assoc, h4]; exact h3, ?_⟩
+  -- the line text is the `b` of `LineOk`
+  obtain ⟨p, a, b, q, hsrc, hp, hfn, hle, _, hb⟩ := hl
+  have h5 : Cut src o.firstNonspace o.lineEnd b :=
+    ⟨p ++ a, q, hsrc, by rw [C05.byteLen_append, ← C05I.linesLen_eq, ← C05I.linesLen_eq]; omega,
+      by rw [← C05I.linesLen_eq]; omega⟩
+  have h6 : line = b := h1.unique h5
+  intro hm
+  exact hb (h6 ▸ fa_cut_subset h2 _ hm)
+
 end MdIt.C05R
+
+namespace MdIt.Block
+open MdIt.Lines (LineOffset)
+
+/-- **the block pass establishes the full claim at every placeholder**: `PMapF`, faithfulness of the
+    content in a tab-free document, and the stretch ends at the end of a line -/
+theorem inlSpec3_pfull (src0 : List Char) : InlSpec3 src0 (PFull src0) := by
+  refine ⟨?_, ?_⟩
+  · intro s b e c m ob oe hg hgl hbe hob hoe hkept
+    refine ⟨(inlSpec2_pmapF src0).lines s b e c m ob oe hg.g2 hgl hbe hob hoe hkept, ?_, ?_⟩
+    · intro htab
+      have := C05R.fa_getLines_pfth hg.g2.geo.table hg.g2.strict hg.term
+        (by rw [hg.g2.srcEq]; exact htab) hbe (C05I.getLines_lift hgl)
+      rw [hg.g2.srcEq] at this
+      exact this
+    · have := hg.term (e - 1) oe hoe
+      rw [hg.g2.srcEq] at this
+      exact this
+  · intro s o line content textPos textMax hg ho hline hcontent
+    refine ⟨(inlSpec2_pmapF src0).heading s o line content textPos textMax hg.g2 ho hline hcontent, ?_, ?_⟩
+    · intro _
+      have h1 : Lines.getLine s.src s.offs s.line = .ok line := liftL_ok5 hline
+      unfold Lines.getLine at h1
+      rw [ho] at h1
+      simp only at h1
+      obtain ⟨hc, hn⟩ := C05R.fa_heading_cut (hg.g2.geo.table _ _ ho) h1 (liftL_ok5 hcontent)
+      rw [hg.g2.srcEq] at hc
+      exact C05R.fa_single_pfth hc hn
+    · have := hg.term s.line o ho
+      rw [hg.g2.srcEq] at this
+      exact this
+
+end MdIt.Block
+
+/-! ## non-vacuity -/
+
+namespace MdIt.C05R
+open MdIt.Lines (LineOffset)
+
+/-- `"> a\n> b"` -/
+def fa_exSrc : List Char := ['>', ' ', 'a', '\n', '>', ' ', 'b']
+
+/-- its line table as the block-quote rule leaves it (`first_nonspace` behind the markers) -/
+def fa_exOffs : List LineOffset := [⟨0, 3, 2, 0⟩, ⟨4, 7, 6, 0⟩]
+
+/-- the block pass makes ONE placeholder for the quoted two-line paragraph: content `"a\nb"`, table
+    `[(0,2),(2,6)]`; `bqRewrite` produces the two entries of `fa_exOffs`; `get_lines` on them returns
+    that content and table -/
+example : (Block.parseBlocks (Pipeline.exCfg false 100).blockCfg fa_exSrc).toOption.map
+      (fun r => Pipeline.inlOf r.1) = some [(['a', '\n', 'b'], [(0, 2), (2, 6)])] ∧
+    (Block.bqRewrite fa_exSrc ⟨0, 3, 0, 0⟩ [' ', 'a']).toOption.map (·.1) = some ⟨0, 3, 2, 0⟩ ∧
+    (Block.bqRewrite fa_exSrc ⟨4, 7, 4, 0⟩ [' ', 'b']).toOption.map (·.1) = some ⟨4, 7, 6, 0⟩ ∧
+    Lines.getLines fa_exSrc fa_exOffs 0 2 0 false = .ok (['a', '\n', 'b'], [(0, 2), (2, 6)]) := by
+  decide +kernel
+
+/-- the hypotheses of `fa_getLines_pfth` hold of that table … -/
+theorem fa_ex_pfth : PFth fa_exSrc ['a', '\n', 'b'] [(0, 2), (2, 6)] := by
+  have hT : ∀ (k : Nat) (o : LineOffset), fa_exOffs[k]? = some o → Block.LineOk fa_exSrc o := by
+    intro k o h
+    match k, h with
+    | 0, h =>
+      simp only [fa_exOffs, List.getElem?_cons_zero, Option.some.injEq] at h
+      subst h
+      exact ⟨[], ['>', ' '], ['a'], ['\n', '>', ' ', 'b'], by decide, by decide, by decide, by decide,
+        by decide, by decide⟩
+    | 1, h =>
+      simp only [fa_exOffs, List.getElem?_cons_succ, List.getElem?_cons_zero, Option.some.injEq] at h
+      subst h
+      exact ⟨['>', ' ', 'a', '\n'], ['>', ' '], ['b'], [], by decide, by decide, by decide, by decide,
+        by decide, by decide⟩
+    | k + 2, h => simp [fa_exOffs] at h
+  have hS : Block.SortedS fa_exOffs := by
+    intro i j o o' hij hi hj
+    match i, j, hij, hi, hj with
+    | 0, 1, _, hi, hj =>
+      simp only [fa_exOffs, List.getElem?_cons_succ, List.getElem?_cons_zero, Option.some.injEq] at hi hj
+      subst hi hj
+      decide
+    | 0, j + 2, _, _, hj => simp [fa_exOffs] at hj
+    | i + 1, j + 2, _, _, hj => simp [fa_exOffs] at hj
+    | i + 1, 1, h, _, _ => omega
+  have hterm : TermOk fa_exSrc fa_exOffs := by
+    intro k o h
+    match k, h with
+    | 0, h =>
+      simp only [fa_exOffs, List.getElem?_cons_zero, Option.some.injEq] at h
+      subst h
+      exact .inr ⟨['>', ' ', 'a'], '\n', ['>', ' ', 'b'], by decide, by decide, .inl rfl⟩
+    | 1, h =>
+      simp only [fa_exOffs, List.getElem?_cons_succ, List.getElem?_cons_zero, Option.some.injEq] at h
+      subst h
+      exact .inl (by decide)
+    | k + 2, h => simp [fa_exOffs] at h
+  exact fa_getLines_pfth hT hS hterm (by decide) (by decide : 0 < 2) (indent := 0) (by decide +kernel)
+
+/-- … and `copy` maps the second line `c[2..3] = "b"` to `src[6..7]`; across the line feed
+    (`c[0..3] = "a\nb"`, translated to `src[2..7]`) `brk` finds the line break of the source -/
+example : Cut fa_exSrc 6 7 ['b'] ∧ ∀ w', Cut fa_exSrc 2 7 w' → ¬ NoBrk w' :=
+  ⟨fa_ex_pfth.copy 2 3 ['b'] 6 7 ⟨['a', '\n'], [], by decide, by decide, by decide⟩ (by decide)
+      (by decide +kernel) (by decide +kernel),
+    fun w' h => fa_ex_pfth.brk 0 3 ['a', '\n', 'b'] 2 7 w' ⟨[], [], by decide, by decide, by decide⟩
+      (by decide) (by decide +kernel) (by decide +kernel) h⟩
+
+/-- the tab-free hypothesis is needed: `"- `\n\ta `"` (item content at column 2, the tab of the
+    continuation line reaches column 4 and is split into two virtual spaces): the placeholder is
+    `"`\n  a `"` with the table `[(0,2),(2,5),(4,5)]`; the stretch `c[2..4] = "  "` holds no line feed
+    and is translated to `src[5..5] = ""`: `copy` fails -/
+example : (Block.parseBlocks (Pipeline.exCfg false 100).blockCfg ['-', ' ', '`', '\n', '\t', 'a', ' ', '`']).toOption.map
+      (fun r => Pipeline.inlOf r.1) = some [(['`', '\n', ' ', ' ', 'a', ' ', '`'], [(0, 2), (2, 5), (4, 5)])] ∧
+    InlineOps.slice ['`', '\n', ' ', ' ', 'a', ' ', '`'] 2 4 = .ok [' ', ' '] ∧
+    InlineOps.getSourcePosFor [(0, 2), (2, 5), (4, 5)] 2 = .ok 5 ∧
+    InlineOps.getSourcePosFor [(0, 2), (2, 5), (4, 5)] 4 = .ok 5 ∧
+    InlineOps.slice ['-', ' ', '`', '\n', '\t', 'a', ' ', '`'] 5 5 = .ok [] := by decide +kernel
+
+end MdIt.C05R
+
+/-! ## the weakest hypothesis: no virtual-space entry in THIS table (`C05I.NoVirt`) -/
+
+namespace MdIt.C05R
+open MdIt.InlineOps (Srcmap getSourcePosFor byteLen)
+open MdIt.Lines (LineOffset Shows mapOf viewPiece joinLines calcRightWs usizeAsI32 dropB)
+open MdIt.C05I (SegAll NoVirt)
+
+theorem fa_noVirt_tail {x : Nat × Nat} {r : Srcmap} (h : NoVirt (x :: r)) : NoVirt r := by
+  intro i k1 v1 k2 v2 h1 h2
+  exact h (i + 1) k1 v1 k2 v2 (by simpa using h1) (by simpa using h2)
+
+/-- a table of `get_lines` without virtual-space entry: no line had a split tab -/
+theorem fa_noVirt_zero (indent : Nat) :
+    ∀ (ovs : List (LineOffset × (List Char × List Char × Int))) (p : Nat),
+      NoVirt (mapOf indent p ovs) →
+      ∀ ov ∈ ovs, (calcRightWs ov.2.1 (ov.2.2.2 - usizeAsI32 indent)).1 = 0 := by
+  intro ovs
+  induction ovs with
+  | nil => intro p _ ov h; simp at h
+  | cons ov0 rest ih =>
+    intro p hnv
+    obtain ⟨o, v⟩ := ov0
+    have h0 : (calcRightWs v.1 (v.2.2 - usizeAsI32 indent)).1 = 0 := by
+      rcases Nat.eq_zero_or_pos (calcRightWs v.1 (v.2.2 - usizeAsI32 indent)).1 with h | h
+      · exact h
+      · exfalso
+        have e : mapOf indent p ((o, v) :: rest)
+            = (p, o.lineStart + (calcRightWs v.1 (v.2.2 - usizeAsI32 indent)).2) ::
+              (p + (calcRightWs v.1 (v.2.2 - usizeAsI32 indent)).1,
+                o.lineStart + (calcRightWs v.1 (v.2.2 - usizeAsI32 indent)).2) ::
+              mapOf indent (p + Lines.byteLen (viewPiece indent v) + 1) rest := by
+          simp [mapOf, h]
+        rw [e] at hnv
+        exact hnv 0 _ _ _ _ rfl rfl rfl
+    rw [fa_mapOf_cons_novirt h0] at hnv
+    have ih' := ih _ (fa_noVirt_tail hnv)
+    intro ov hov
+    rcases List.mem_cons.mp hov with rfl | hov
+    · exact h0
+    · exact ih' ov hov
+
+/-- the common part of `fa_getLines_pfth` / `fa_getLines_pfth_nv`: `hz` supplies "no tab of the
+    lines read is split" for whatever views the lines show -/
+theorem fa_getLines_pfth_core {src : List Char} {offs : List LineOffset}
+    (hT : ∀ (k : Nat) (o : LineOffset), offs[k]? = some o → Block.LineOk src o)
+    (hord : Block.SortedS offs) (hterm : TermOk src offs)
+    {b e indent : Nat} {c : List Char} {m : Srcmap} (hbe : b < e)
+    (h : Lines.getLines src offs b e indent false = .ok (c, m))
+    (hz : ∀ ovs : List (LineOffset × (List Char × List Char × Int)),
+      (∀ ov ∈ ovs, Shows src ov.1 ov.2) → m = mapOf indent 0 ovs →
+      ∀ ov ∈ ovs, (calcRightWs ov.2.1 (ov.2.2.2 - usizeAsI32 indent)).1 = 0) : PFth src c m := by
+  have hlen : e ≤ offs.length := by
+    unfold Lines.getLines at h
+    rw [if_neg (by omega)] at h
+    exact Lines.getLinesGo_ok_len h hbe
+  obtain ⟨ovs, hvl, hvs⟩ := fa_ovs_of_tableOk hT (e - b) b (by omega)
+  obtain ⟨content, hget, hcontent, _⟩ :=
+    Lines.get_lines_faithful src offs b indent false ovs (fun j hj => ⟨(hvs j hj).1, (hvs j hj).2.1⟩)
+  rw [hvl, show b + (e - b) = e by omega, h] at hget
+  simp only [Except.ok.injEq, Prod.mk.injEq] at hget
+  obtain ⟨rfl, hm⟩ := hget
+  have hzero := hz ovs (by
+    intro ov hov
+    obtain ⟨j, hj, rfl⟩ := List.getElem_of_mem hov
+    exact (hvs j hj).2.1) hm
+  subst hm
+  have hseg := fa_mapOf_seg src indent ovs [] (by
+    intro ov hov
+    have hz0 := hzero ov hov
+    obtain ⟨j, hj, rfl⟩ := List.getElem_of_mem hov
+    obtain ⟨_, hs, hn1, hn2⟩ := hvs j hj
+    exact ⟨hs, hn1, hn2, hz0⟩) (by
+    apply fa_chain_of
+    intro j a a' ha ha'
+    simp only [List.getElem?_map, Option.map_eq_some_iff] at ha ha'
+    obtain ⟨x, hx, rfl⟩ := ha
+    obtain ⟨y, hy, rfl⟩ := ha'
+    obtain ⟨hj, rfl⟩ := List.getElem?_eq_some_iff.mp hx
+    obtain ⟨hj', rfl⟩ := List.getElem?_eq_some_iff.mp hy
+    have h1 := hord (b + j) (b + (j + 1)) _ _ (by omega) (hvs j hj).1 (hvs (j + 1) hj').1
+    refine ⟨h1, ?_⟩
+    rcases hterm _ _ (hvs j hj).1 with h2 | h2
+    · exfalso
+      have := (hT _ _ (hvs (j + 1) hj').1).bounds
+      rw [C05I.linesLen_eq] at this
+      omega
+    · exact h2)
+  simp only [List.nil_append, byteLen] at hseg
+  rw [← hcontent] at hseg
+  refine fa_pfth_of_seg (fa_seg_wf hseg ?_) hseg
+  cases ovs with
+  | nil => simp at hvl; omega
+  | cons ov r => exact ⟨_, _, rfl⟩
+
+/-- **`get_lines` is faithful** whenever the table it returns has no virtual-space entry (no tab of
+    the lines read was split — the source may contain tabs) -/
+theorem fa_getLines_pfth_nv {src : List Char} {offs : List LineOffset}
+    (hT : ∀ (k : Nat) (o : LineOffset), offs[k]? = some o → Block.LineOk src o)
+    (hord : Block.SortedS offs) (hterm : TermOk src offs)
+    {b e indent : Nat} {c : List Char} {m : Srcmap} (hnv : C05I.NoVirt m) (hbe : b < e)
+    (h : Lines.getLines src offs b e indent false = .ok (c, m)) : PFth src c m :=
+  fa_getLines_pfth_core hT hord hterm hbe h (fun ovs _ hm => fa_noVirt_zero indent ovs 0 (hm ▸ hnv))
+
+end MdIt.C05R
+
+namespace MdIt.Block
+open MdIt.Lines (LineOffset)
+
+/-- `PFull` with the weakest hypothesis: faithfulness whenever THIS table has no virtual-space entry -/
+def PFullV (src0 : List Char) : InlP := fun c m a b =>
+  PMapF src0 c m a b ∧ (C05I.NoVirt m → C05R.PFth src0 c m) ∧
+    (b = InlineOps.byteLen src0 ∨ C05R.BrkAt src0 b)
+
+theorem inlSpec3_pfullV (src0 : List Char) : InlSpec3 src0 (PFullV src0) := by
+  refine ⟨?_, ?_⟩
+  · intro s b e c m ob oe hg hgl hbe hob hoe hkept
+    refine ⟨(inlSpec2_pmapF src0).lines s b e c m ob oe hg.g2 hgl hbe hob hoe hkept, ?_, ?_⟩
+    · intro hnv
+      have := C05R.fa_getLines_pfth_nv hg.g2.geo.table hg.g2.strict hg.term hnv hbe
+        (C05I.getLines_lift hgl)
+      rw [hg.g2.srcEq] at this
+      exact this
+    · have := hg.term (e - 1) oe hoe
+      rw [hg.g2.srcEq] at this
+      exact this
+  · intro s o line content textPos textMax hg ho hline hcontent
+    exact ⟨((inlSpec3_pfull src0).heading s o line content textPos textMax hg ho hline hcontent).1,
+      fun _ => by
+        have h1 : Lines.getLine s.src s.offs s.line = .ok line := liftL_ok5 hline
+        unfold Lines.getLine at h1
+        rw [ho] at h1
+        simp only at h1
+        obtain ⟨hc, hn⟩ := C05R.fa_heading_cut (hg.g2.geo.table _ _ ho) h1 (liftL_ok5 hcontent)
+        rw [hg.g2.srcEq] at hc
+        exact C05R.fa_single_pfth hc hn,
+      ((inlSpec3_pfull src0).heading s o line content textPos textMax hg ho hline hcontent).2.2⟩
+
+/-- non-vacuity of the weaker hypothesis: `"> a\tb"` contains a tab that is not split; the table
+    `[(0,2)]` is `NoVirt` -/
+example : (parseBlocks (Pipeline.exCfg false 100).blockCfg ['>', ' ', 'a', '\t', 'b']).toOption.map
+      (fun r => Pipeline.inlOf r.1) = some [(['a', '\t', 'b'], [(0, 2)])] ∧
+    C05I.NoVirt [(0, 2)] :=
+  ⟨by decide +kernel, (C05I.single_table [] 2).2.2.2.1⟩
+
+end MdIt.Block
